@@ -19,7 +19,7 @@ EXES = ["m_watch"]
 GEN = True
 THEOREMS = ["watch_refines", "each_forward_frame_once_in_order", "devicetype_only_from_immediate_predecessor",
             "query_paired", "query_unanswered_on_forward", "twice_good_iff_identical_repeat_in_time",
-            "fanout", "unsubscribe_local", "serial_refines", "serial_each_frame_once_in_order", "run_append"]
+            "fanout", "unsubscribe_local", "subscribe_local", "fanout_from", "serial_refines", "serial_each_frame_once_in_order", "run_append"]
 TRUSTED = ["hand-written model Model/BusWatch.lean of tridonic._bus_watch, the serial receivers' observed-frame "
            "path and the two subscriber registries, tied by trace validation of the real drivers in virtual time",
            "Spec/Transactions.lean: the reading of a packet history as bus transactions (the meaning of the property)",
@@ -508,7 +508,8 @@ def suite_classify(ctx, corr, ids, timeout_s):
                 script = [("fwd",) + q, ("gap", 0.01), ("raw", raw)]
                 n += 1
                 yield script
-    corr.exhaustive["report type x status byte through the watcher"] = True
+    if ctx.thorough:
+        corr.exhaustive["report type x status byte x origin through the watcher"] = True
 
 
 # ---------------------------------------------------------------------------
